@@ -576,6 +576,11 @@ def r7_accept_implies_verified(run, rule="R7", only_valid_cert="F",
         cfg.entry, {"verified": "U", "only_valid_cert": only_valid_cert},
         lambda nid, vd: nid == cfg.return_exit and vd["verified"] != "T")
     key = fi.qual + "::accept=>verified" + construct_suffix
+    if wit is not None and construct_suffix:
+        br = [cfg.nodes[i] for i in wit if cfg.nodes[i].kind in ("true", "false")
+              and "verified" in unparse(cfg.nodes[i].ast)]
+        if br:
+            key += "::via:" + br[-1].text()
     run.check(wit is None, rule, key,
               "no normal return is reachable unless verified is True "
               "(only_valid_cert=%s)" % only_valid_cert,
